@@ -124,7 +124,7 @@ func init() {
 		{"ARGS.lenvalue", "lapack/gonum/dlange.go", "\t\tfor i := 0; i < m; i++ {\n\t\t\tscale, sum = impl.Dlassq(n, a[i*lda:], 1, scale, sum)\n\t\t}\n\t\treturn scale * math.Sqrt(sum)", "\t\tif lda == n {\n\t\t\tscale, sum = impl.Dlassq(len(a), a, 1, scale, sum)\n\t\t\treturn scale * math.Sqrt(sum)\n\t\t}\n\t\tfor i := 0; i < m; i++ {\n\t\t\tscale, sum = impl.Dlassq(n, a[i*lda:], 1, scale, sum)\n\t\t}\n\t\treturn scale * math.Sqrt(sum)", func() *core.Result { return flagx.RunLenValue(def, core.Pkgs("./lapack/gonum")) }},
 		{"FACT.condpath", "mat/lu.go", "\t\tlu.lu.Copy(orig.lu)\n\t\tlu.ok = orig.ok\n\t}\n", "\t\tlu.lu.Copy(orig.lu)\n\t\tlu.ok = orig.ok\n\t}\n\tif alpha == 0 {\n\t\treturn\n\t}\n", func() *core.Result { return factx.Run(def) }},
 		{"LOOPIDX.continue", "blas/gonum/level2float64.go", "\t\t\t\tatmp := ap[offset:]\n\t\t\t\txi := x[i]\n\t\t\t\tyi := y[i]\n\t\t\t\txtmp := x[i:n]", "\t\t\t\tatmp := ap[offset:]\n\t\t\t\txi := x[i]\n\t\t\t\tyi := y[i]\n\t\t\t\tif xi == 0 && yi == 0 {\n\t\t\t\t\tcontinue\n\t\t\t\t}\n\t\t\t\txtmp := x[i:n]", func() *core.Result { return loopidx.RunContinueSkip(def, core.Pkgs("./blas/gonum")) }},
-		{"MAT.access", "mat/matrix.go", "\tr, c := a.Dims()\n\tif j < 0 || j >= c {\n\t\tpanic(ErrColAccess)", "\tr, c := a.Dims()\n\tif j < 0 || j >= r {\n\t\tpanic(ErrColAccess)", func() *core.Result { return matargs.RunAccess(def) }},
+		{"MAT.access", "mat/matrix.go", "\tif i < 0 || i >= r {\n\t\tpanic(ErrRowAccess)", "\tif i < 0 || i >= r {\n\t\tpanic(ErrColAccess)", func() *core.Result { return matargs.RunAccess(def) }},
 		{"ARGS.workquery", "lapack/gonum/dgeqrf.go", "case len(work) < max(1, lwork):", "case len(work) < lwork:", func() *core.Result { return flagx.RunWorkQuery(def, core.Pkgs("./lapack/gonum")) }},
 		{"ARGS.callee", "lapack/gonum/dsytrd.go", "case len(d) < n:", "case len(d) < n-1:", func() *core.Result { return worksize.RunCallee(def, core.Pkgs("./lapack/gonum")) }},
 		{"GRAPHINV.together", "graph/simple/weighted_undirected.go", "\tif fm, ok := g.edges[fid]; ok {\n\t\tfm[tid] = e\n\t} else {", "\tif fm, ok := g.edges[fid]; ok {\n\t\t_, exists := fm[tid]\n\t\tfm[tid] = e\n\t\tif exists {\n\t\t\treturn\n\t\t}\n\t} else {", func() *core.Result { return graphinv.Run(def) }},
